@@ -58,10 +58,10 @@ func raceCases(tier string) int {
 
 func raceFloors(tier string) map[string]int64 {
 	return scaleFloors(map[string]int64{
-		"rounds": 38, "commits_while_submitters_running": 60, "commits_foreign_concurrent": 20, "blocks_validated_by_replica": 100,
+		"rounds": 38, "commits_while_submitters_running": 50, "commits_foreign_concurrent": 20, "blocks_validated_by_replica": 100,
 		"admitted_after_or_during_a_concurrent_commit": 220, "concurrent_duplicates": 470, "foreign_block_txs_also_submitted": 25,
 		"live_reaps_checked": 200, "live_reaped_txs_checked": 790, "probes_nonempty": 30, "nonce_positions_checked": 900,
-		"promoted": 50, "reader_ops": 140000, "submissions": 4500,
+		"promoted": 50, "reader_ops": 20000, "submissions": 4500,
 		"submit/valid/accepted": 1200, "submit/conf/accepted": 115, "submit/conf-conflict/rejected": 130, "submit/future/accepted": 70,
 		"submit/stale/rejected": 80, "submit/underfunded/rejected": 115,
 	}, raceCases(tier), 24)
@@ -320,7 +320,13 @@ func (w *world) raceRound(rd, G int) (bool, int) {
 	}
 
 	// ---- concurrent phase
-	var commits int32
+	// Paced submitters split their list in three and wait (event-based, never on time) until the consensus caller has
+	// committed one resp. two blocks of this round before they continue: admissions overlap commit cycles on any machine.
+	paced := make([]bool, G)
+	for g := range paced {
+		paced[g] = w.r.Chance(0.7)
+	}
+	var commits, mainDone int32
 	results := make([][]subResult, G)
 	var wg sync.WaitGroup
 	var running int32 = int32(G)
@@ -332,7 +338,17 @@ func (w *world) raceRound(rd, G int) (bool, int) {
 			defer wg.Done()
 			defer atomic.AddInt32(&running, -1)
 			<-start
+			n := len(lists[g])
 			for i, s := range lists[g] {
+				if paced[g] && n >= 3 && (i == n/3 || i == 2*n/3) {
+					target := int32(1)
+					if i == 2*n/3 {
+						target = 2
+					}
+					for atomic.LoadInt32(&commits) < target && atomic.LoadInt32(&mainDone) == 0 {
+						runtime.Gosched()
+					}
+				}
 				pre := atomic.LoadInt32(&commits)
 				err := N.Mempool.AddTx("", s.tx)
 				results[g] = append(results[g], subResult{t: s.t, err: err, commitsPre: pre, commitsAt: atomic.LoadInt32(&commits)})
@@ -374,6 +390,7 @@ func (w *world) raceRound(rd, G int) (bool, int) {
 
 	var saved []*savedBlock
 	fail := func() (bool, int) {
+		atomic.StoreInt32(&mainDone, 1)
 		wg.Wait()
 		atomic.StoreInt32(&stopReader, 1)
 		rwg.Wait()
@@ -448,6 +465,7 @@ func (w *world) raceRound(rd, G int) (bool, int) {
 		}
 		runtime.Gosched()
 	}
+	atomic.StoreInt32(&mainDone, 1)
 	wg.Wait()
 	atomic.StoreInt32(&stopReader, 1)
 	rwg.Wait()
